@@ -19,8 +19,17 @@ func genStructProg(id int, seed int64, nfields int) *Prog {
 	}
 	sb.WriteString("}\n\n")
 	nmeth := 1 + rng.Intn(4)
+	// every other program creates package-level instances BEFORE (and between) the method declarations: methods are
+	// found on every instance of the type, whenever it was created
+	early := id%2 == 1
+	if early {
+		sb.WriteString("var early = &S{}\n\n")
+	}
 	for m := 0; m < nmeth; m++ {
 		fmt.Fprintf(&sb, "func (s *S) m%d(k int) int {\n\treturn k + %d\n}\n\n", m, m*100)
+		if early && m == 0 {
+			sb.WriteString("var mid = &S{}\n\n")
+		}
 	}
 	var params []Param
 	nin := 0
@@ -99,6 +108,9 @@ func genStructProg(id int, seed int64, nfields int) *Prog {
 	}
 	for m := 0; m < nmeth; m++ {
 		line("fmt.Println(a.m%d(%s), b.m%d(1), c.m%d(2))", m, in("int"), m, m)
+		if early {
+			line("fmt.Println(early.m%d(3), mid.m%d(4))", m, m)
+		}
 	}
 	name := fmt.Sprintf("f%d", id)
 	var ps []string
